@@ -1300,3 +1300,17 @@ M("C15-benign-array-bound-test-swapped", "C15", "src/interrogate/typeManager.cxx
   "    return type->as_array_type()->_bounds != nullptr;",
   "    return nullptr != type->as_array_type()->_bounds;",
   benign=True)
+
+# ---------------------------------------------------------------- R15.20 (F-C15p)
+M("C15-class-listed-in-own-scope", "C15", "src/cppparser/cppBison.yxx",
+  "  if (names_enclosing_class) {\n    yywarning(\"declaration does not declare anything\", @2);\n  } else {\n    current_scope->add_declaration($2, global_scope, current_lexer, @2);\n  }",
+  "  if (names_enclosing_class) {\n    yywarning(\"declaration does not declare anything\", @2);\n  }\n  current_scope->add_declaration($2, global_scope, current_lexer, @2);",
+  expect="R15.20|")
+M("C15-enclosing-walk-stops-at-current-scope", "C15", "src/cppparser/cppBison.yxx",
+  "    for (CPPScope *scope = current_scope;\n         scope != nullptr;\n         scope = scope->get_parent_scope()) {\n      if (scope == declared_struct->get_scope()) {\n        names_enclosing_class = true;\n        break;\n      }\n    }",
+  "    names_enclosing_class = false;",
+  expect="R15.20|")
+M("C15-benign-enclosing-walk-while", "C15", "src/cppparser/cppBison.yxx",
+  "    for (CPPScope *scope = current_scope;\n         scope != nullptr;\n         scope = scope->get_parent_scope()) {\n      if (scope == declared_struct->get_scope()) {\n        names_enclosing_class = true;\n        break;\n      }\n    }",
+  "    CPPScope *scope = current_scope;\n    while (scope != nullptr && !names_enclosing_class) {\n      if (declared_struct->get_scope() == scope) {\n        names_enclosing_class = true;\n      }\n      scope = scope->get_parent_scope();\n    }",
+  benign=True)
